@@ -725,6 +725,21 @@ class _CellBase:
                 self.parameters['mode'], [], ov, True)}}}
 
 
+def vv_extend(current, new):
+    """In-place list updater (what a user updater may legitimately do)."""
+    current.extend(new)
+    return current
+
+
+def vv_iadd(current, new):
+    """In-place numpy updater."""
+    current += new
+    return current
+
+
+INPLACE_UPDATERS = {'vv_extend': vv_extend, 'vv_iadd': vv_iadd}
+
+
 def build_schema(desc):
     """Plain-data schema description -> ports schema.  Leaves are dicts with
     the key '_default'; divider names 'user' map to the user function."""
@@ -746,6 +761,8 @@ def build_schema(desc):
             if leaf.get('_inf'):
                 leaf.pop('_inf')
                 leaf['_default'] = float('inf')
+            if leaf.get('_updater') in INPLACE_UPDATERS:
+                leaf['_updater'] = INPLACE_UPDATERS[leaf['_updater']]
             d = leaf.get('_divider')
             if d == 'user':
                 leaf['_divider'] = {'divider': div_user,
